@@ -358,7 +358,7 @@ func checkTextDescription(p *Program, r *Report) {
 		if ev, ok := tp[1].(*ErrVal); !ok || !ev.IsNil {
 			continue
 		}
-		var mk, sum, stv *Event
+		var mk, sum, stv, rdi *Event
 		for k := range o.St.events {
 			ev := &o.St.events[k]
 			switch ev.Kind {
@@ -368,6 +368,8 @@ func checkTextDescription(p *Program, r *Report) {
 				sum = ev
 			case "loop-store":
 				stv = ev
+			case "readinto":
+				rdi = ev
 			}
 		}
 		// the text taken directly as string(data[12 : 12+count−1])
@@ -382,6 +384,26 @@ func checkTextDescription(p *Program, r *Report) {
 				}
 			}
 		}
+		// the text read in one piece into a fresh buffer: io.ReadFull(reader over data, make([]byte, count−1))
+		bulk := false
+		if !direct && mk != nil && rdi != nil && sum == nil && stv == nil && len(rdi.Args) == 4 {
+			if src, ok := rdi.Args[3].(*SliceVal); ok && src.Base != nil && src.Base.Key == "data" {
+				if dst, ok := rdi.Recv.(*SliceVal); ok && dst.Base != nil && dst.Lo.Equal(formInt(0)) {
+					if n, ok := mk.Args[0].(*Form); ok && dst.Len.Equal(n) && dst.Base.Fn == "make" {
+						rpos, _ := rdi.Args[1].(*Form)
+						bulk = true
+						direct = true
+						dsl = &SliceVal{Base: src.Base, Lo: src.Lo.Add(rpos), Len: n, Elem: src.Elem}
+						// returned string = string(that buffer)
+						if rk := valKey(tp[0]); !strings.Contains(rk, "convert:string("+valKey(dst)+")") {
+							direct, bulk = false, false
+							why = "the returned text is not the buffer the ASCII bytes were read into"
+						}
+					}
+				}
+			}
+		}
+		_ = bulk
 		if !direct && (mk == nil || sum == nil || stv == nil) {
 			continue
 		}
